@@ -57,7 +57,63 @@ LIST_MUTATORS = ("append", "extend", "insert", "remove", "pop", "clear", "sort",
 
 
 class CallMixin(object):
+    def seq_table_mutation(self, st, env, node, module):
+        """`name.pop(i)` / `name.reverse()` where the local holds a *table* of sequences (str.split on
+        a table of strings): the sequences are values, so the mutation rebinds the local to the
+        table of shortened sequences.  Returns the call's value, or None when the shape does not apply."""
+        f = node.func
+        if not (isinstance(f, ast.Attribute) and isinstance(f.value, ast.Name) and f.attr in ("pop",) and not node.keywords and len(node.args) <= 1):
+            return None
+        try:
+            cur = self.lookup(st, env, f.value.id, f.value, module)
+        except AnalysisError:
+            return None
+        if not (isinstance(cur, Fin) and all(isinstance(x, TTuple) for x in cur.table.values())):
+            return None
+        idx = self.eval(st, env, node.args[0]) if node.args else Const(-1)
+        if not (isinstance(idx, Const) and isinstance(idx.v, int)):
+            return None
+        fo = st.folder()
+        cur = fo.restrict(cur)
+        if isinstance(cur, Const):
+            cur = Fin((), {(): cur.v})
+            return None
+        i = idx.v
+
+        def ok(t):
+            return -len(t) <= i < len(t)
+
+        bad = fo.fold(lambda t: not ok(t), [cur])
+        d = self.decide(st, bad)
+        if d is True:
+            self.hazard(st, "IndexError", node, module, TRUE, "pop from an empty / too short list")
+            raise Dead()
+        if d is None:
+            self.hazard(st, "IndexError", node, module, bad, "pop index out of range for some inputs")
+            self.assume(st, mk_not(bad))
+            fo = st.folder()
+            cur = fo.restrict(cur)
+            if isinstance(cur, Const):
+                cur = Fin((), {(): cur.v})
+        val = fo.fold(lambda t: t[i], [cur]) if cur.slots else Const(list(cur.table.values())[0][i])
+        rest = fo.fold(lambda t: TTuple([x for j, x in enumerate(t) if j != (i if i >= 0 else len(t) + i)]), [cur]) if cur.slots else None
+        if rest is None:
+            return None
+        # rebind in the frame that holds the name
+        e = env
+        while e is not None:
+            frame = st.heap[e.id]
+            if f.value.id in frame.vars:
+                frame.vars[f.value.id] = rest
+                return val
+            e = frame.parent
+        return None
+
     def e_Call(self, st, env, node, module):
+        if isinstance(node.func, ast.Attribute) and node.func.attr == "pop" and isinstance(node.func.value, ast.Name):
+            r_ = self.seq_table_mutation(st, env, node, module)
+            if r_ is not None:
+                return r_
         fn = self.eval(st, env, node.func)
         args = []
         for a in node.args:
@@ -732,10 +788,106 @@ class CallMixin(object):
         raise AnalysisError("E5.loop", name, node, module)
 
     # ------------------------------------------------------------------ external calls
+
+    # ------------------------------------------------------------------ regular expressions on tables
+    # Opt-in (`regex_on_tables`): a pattern is data of the source and its semantics are those of
+    # Python's re; applied to a table of representative strings it is evaluated row by row.  A
+    # match object is the value ("re-match", whole match, groups) or None.
+    def regex_ext(self, st, dotted, args, kwargs, node, module):
+        import re as _re
+
+        if dotted == "re.compile" and args and isinstance(args[0], Const) and isinstance(args[0].v, str):
+            if len(args) > 1 or kwargs:
+                raise AnalysisError("E5.regex", "regex flags are not modelled here", node, module)
+            o = Opaque("regex:" + args[0].v)
+            try:
+                o.re_compiled = _re.compile(args[0].v)
+            except _re.error as e:
+                self.hazard(st, "re.error", node, module, TRUE, "invalid pattern: %s" % e)
+                raise Dead()
+            return o
+        if dotted in ("re.match", "re.fullmatch", "re.search", "re.split", "re.findall") and len(args) >= 2 and isinstance(args[0], Const) and isinstance(args[0].v, str):
+            o = Opaque("regex:" + args[0].v)
+            o.re_compiled = _re.compile(args[0].v)
+            return self.regex_call(st, o, dotted[3:], list(args[1:]), kwargs, node, module)
+        return None
+
+    def regex_call(self, st, rx, name, args, kwargs, node, module):
+        if kwargs or not args:
+            raise AnalysisError("E5.regex", "regex call with keyword arguments", node, module)
+        s_ = args[0]
+        if isinstance(s_, Fin):
+            s_ = st.folder().restrict(s_)
+        if not (isinstance(s_, (Fin, Const)) and all(isinstance(x, str) for x in (s_.table.values() if isinstance(s_, Fin) else [s_.v]))):
+            raise AnalysisError("E5.regex", "regex applied to %r" % (s_,), node, module)
+        extra = [a.v for a in args[1:] if isinstance(a, Const)]
+        if len(extra) != len(args) - 1:
+            raise AnalysisError("E5.regex", "regex call with symbolic extra arguments", node, module)
+        cre = rx.re_compiled
+
+        def run(x):
+            if name in ("match", "fullmatch", "search"):
+                m = getattr(cre, name)(x, *extra)
+                if m is None:
+                    return None
+                return ("re-match", m.group(0), TTuple(list(m.groups())))
+            if name == "split":
+                return TTuple(cre.split(x, *extra))
+            if name == "findall":
+                return TTuple([y if isinstance(y, str) else TTuple(list(y)) for y in cre.findall(x)])
+            raise AnalysisError("E5.regex", "regex method %s is not modelled" % name, node, module)
+
+        if isinstance(s_, Const):
+            return Const(run(s_.v))
+        return st.folder().fold(run, [s_])
+
+    @staticmethod
+    def is_regex_match(x):
+        vals = x.table.values() if isinstance(x, Fin) else [x.v] if isinstance(x, Const) else []
+        vals = [v for v in vals if v is not None]
+        return bool(vals) and all(isinstance(v, tuple) and len(v) == 3 and v[0] == "re-match" for v in vals)
+
+    def regex_match_method(self, st, recv, name, args, kwargs, node, module):
+        """methods of a match object; on rows where the match failed (None) the call raises"""
+        fo = st.folder()
+        if isinstance(recv, Fin):
+            nonec = fo.fold(lambda m: m is None, [recv])
+            d = self.decide(st, nonec)
+            if d is not False:
+                self.hazard(st, "AttributeError", node, module, nonec, "method %s of a failed match (None)" % name)
+                if d is True:
+                    raise Dead()
+                self.assume(st, mk_not(nonec))
+                recv = st.folder().restrict(recv)
+                fo = st.folder()
+        idx = [a.v for a in args if isinstance(a, Const)]
+        if len(idx) != len(args) or kwargs:
+            raise AnalysisError("E5.regex", "match-object call with symbolic arguments", node, module)
+
+        def meth(m):
+            try:
+                if name == "groups":
+                    return m[2]
+                if name == "group":
+                    if not idx:
+                        return m[1]
+                    if len(idx) == 1:
+                        return m[1] if idx[0] == 0 else m[2][idx[0] - 1]
+                    return TTuple([m[1] if i == 0 else m[2][i - 1] for i in idx])
+            except IndexError:
+                return ERR
+            raise AnalysisError("E5.regex", "match-object method %s is not modelled" % name, node, module)
+
+        return Const(meth(recv.v)) if isinstance(recv, Const) else fo.fold(meth, [recv])
+
     def call_ext(self, st, dotted, args, kwargs, node, module):
         hook = getattr(self, "ext_hook", None)
         if hook is not None:
             r = hook(st, dotted, args, kwargs, node, module)
+            if r is not None:
+                return r
+        if getattr(self, "regex_on_tables", False) and dotted.startswith("re."):
+            r = self.regex_ext(st, dotted, args, kwargs, node, module)
             if r is not None:
                 return r
         if dotted == "decimal.Decimal":
@@ -855,6 +1007,11 @@ class CallMixin(object):
             r = hook(st, recv, name, args, kwargs, node, module)
             if r is not None:
                 return r
+        if getattr(self, "regex_on_tables", False):
+            if isinstance(recv, Opaque) and getattr(recv, "re_compiled", None) is not None:
+                return self.regex_call(st, recv, name, list(args), kwargs, node, module)
+            if isinstance(recv, (Fin, Const)) and self.is_regex_match(recv):
+                return self.regex_match_method(st, recv, name, args, kwargs, node, module)
         fo = st.folder()
         if isinstance(recv, Ref):
             o = st.heap[recv.id]
@@ -2276,6 +2433,10 @@ class StmtMixin(object):
                         o.vars[k] = self.mk_ite(M, c, a.vars[k], b.vars[k])
                     except AnalysisError:
                         o.vars[k] = Opaque("unjoinable:" + k)
+                elif getattr(self, "split_unjoinable", False) and not k.startswith("__"):
+                    # bound on one path only: in path-splitting mode the paths stay apart (a read on
+                    # the other path is an UnboundLocalError, not the first path's value)
+                    o.vars[k] = Opaque("unjoinable:" + k)
                 elif k in b.vars:
                     o.vars[k] = b.vars[k]
             return o
